@@ -80,6 +80,7 @@ static void churn_check(const Json& c, Out& o) {
     o.label(fmt("threads:%s", T <= 2 ? "2" : T <= 4 ? "3-4" : T <= 8 ? "5-8" : "9-16"));
     o.label(fmt("distinct-large-lengths:%s", large_used.size() > 4 ? ">4 (more than a cache holds)" : large_used.empty() ? "0" : "1-4"));
     if (T >= 2 && creations >= 100) o.nontrivial(mix(seed, uint64_t(creations)));
+    for (int round = 0, rounds = replay_rounds(25); round < rounds && !o.failed; ++round)
     run_forked(o, 600.0, [&](Out& co) {
         std::vector<std::vector<uint64_t>> got(static_cast<size_t>(T)), ref(static_cast<size_t>(T));
         std::vector<std::string> errs(static_cast<size_t>(T));
